@@ -1,8 +1,18 @@
 #!/bin/sh
-# Build the framework from files on disk only (offline).
-set -e
+# Build the framework from files on disk only (offline). A property whose build fails does not
+# stop the others; its own check will report it.
 cd "$(dirname "$0")"
 export CARGO_NET_OFFLINE=true
 [ -f harness/Cargo.lock ] || cp /repo/Cargo.lock harness/Cargo.lock
-(cd lean && lake build QV qvdriver)
-(cd harness && cargo build --release --offline)
+IDS=$(python3 -c "import json;print(' '.join(c['property_id'] for c in json.load(open('MANIFEST.json'))['checks']))")
+(cd lean && lake build QV.Wire)
+for id in $IDS; do
+  lid=$(echo "$id" | tr 'A-Z' 'a-z')
+  (cd lean && lake build "QV.$id.Props" "qv_$lid") || echo "setup: lean build failed for $id"
+done
+(cd harness && cargo build --release --offline --lib) || echo "setup: harness lib build failed"
+for id in $IDS; do
+  lid=$(echo "$id" | tr 'A-Z' 'a-z')
+  (cd harness && cargo build --release --offline --bin "$lid") || echo "setup: harness build failed for $id"
+done
+exit 0
